@@ -209,13 +209,21 @@ static int hash_file(const char *file, EVP_MD_CTX *ctx, void *log_ref)
 
 static int hash_value(const char *value, EVP_MD_CTX *ctx)
 {
-    EVP_DigestUpdate(ctx, value, strlen(value));
+    size_t len = strlen(value);
+
+    EVP_DigestUpdate(ctx, &len, sizeof(len));
+    EVP_DigestUpdate(ctx, value, len);
 
     return 0;
 }
 
 static int hash_item(const struct item *item, EVP_MD_CTX *ctx, void *log_ref)
 {
+    /* The item type and (for values) length go into the digest, to
+       keep apart sets of credentials which differ only in how the
+       same text is divided among the items. */
+    EVP_DigestUpdate(ctx, &item->type, sizeof(item->type));
+
     switch (item->type) {
     case item_type_none:
 	return 0;
